@@ -12,6 +12,7 @@ import (
 	"io"
 	"runtime/debug"
 	"testing"
+	"time"
 	"unsafe"
 
 	"google.golang.org/grpc/grpclog"
@@ -118,6 +119,25 @@ func (p *simPool) liveBytes() (n, total int) {
 		total += sz
 	}
 	return len(p.live), total
+}
+
+// simIdle decides "nothing moved for a whole check interval". The runtime
+// injects 1 µs sleeps into a goroutine that passes 50 000 scheduling points at
+// one virtual instant (spin detection), so a run is only called stalled when
+// the progress counter stood still for the interval plus a margin far above that.
+type simIdle struct {
+	last  int
+	since time.Time
+	init  bool
+}
+
+func (i *simIdle) stalled(progress int, gap time.Duration) bool {
+	now := time.Now()
+	if !i.init || progress != i.last {
+		i.init, i.last, i.since = true, progress, now
+		return false
+	}
+	return now.Sub(i.since) >= gap+20*time.Microsecond
 }
 
 func simErrStr(err error) string {
